@@ -1557,6 +1557,24 @@ class Engine(ExprMixin, CallMixin):
             self.use_lemma(text, st, node, when=to_z3(self.spec_eval(cond, st)))
         elif cmd.startswith("use "):
             self.use_lemma(cmd[4:], st, node)
+        elif cmd.startswith("scoped "):
+            # "scoped c1 | c2 | .. | assert P": a sub-proof.  The commands run on a copy of the state (lemma instances, auxiliary
+            # asserts: each proved where it stands); of everything established there only the last plain `assert` is kept in
+            # the real state.  Keeps facts that were needed once (e.g. string lemmas) out of every later obligation.
+            parts = [p.strip() for p in cmd[7:].split("|")]
+            s2 = st.copy()
+            s2.ghost = dict(st.ghost)
+            goal = None
+            for p_ in parts:
+                if p_.startswith("assert "):
+                    goal = to_z3(self.spec_eval(p_[7:], s2))
+                    self.emit(f"ghost.scoped[{g.get('label', g['at'][:24])}]", s2, goal, node, kind="ghost")
+                    s2.assume(goal)
+                else:
+                    self.ghost_cmd(p_, s2, node, g)
+            if goal is None:
+                raise ContractError("scoped ghost block without a final assert")
+            st.assume(goal)
         elif cmd.startswith("forall "):
             # "forall x | use L(..x..) | assert P(x)": prove P for an arbitrary x, then assume forall x. P(x)
             # several variables: "forall x, y | ..."; an assert inside is available to the later parts (proved, then assumed)
